@@ -93,6 +93,10 @@ EXPLANATION += (
     ' Round 11: the writers do not edit the records (R-ALIAS/records-read-only); the re-order rule of C01 is shared.'
 )
 
+EXPLANATION += (
+    ' Round 13: the election keeps exactly the configured number of candidates (rules of C03), which is what the HDF5 writer sizes its arrays from.'
+)
+
 RULE_TEXT = (
     "one obligation per consumed record key, per dataset, per record key "
     "of the codec, per constant relation; non-trivial when the key / "
